@@ -22,6 +22,7 @@ EXPLANATION = (
     "only for mode == BOOTLOADER (partitioned over the 4 modes), where is_onboarded() true and echo() "
     "dominate it; hsm.new_pin(new_pin) gets a policy-valid PIN unless any-pin, and on Ledger only in "
     "bootloader mode; the destructive call is reachable when all preconditions hold; the six key paths "
+    "the dongle classes' onboard relays seed, PIN and WIPE (SGX: one exchange) and reports True iff the device confirmed, unlock reports the device's verdict, the admin commands treat a refused unlock / PIN change as an error and an accepted one not; "
     "equal docs/protocol.md and each stored key is the device's key for that path, written "
     "uncompressed under str(path). Does not decide device behaviour."
 )
